@@ -686,6 +686,29 @@ def A6(ctx: Ctx) -> RuleResult:
         for member in by_member:
             if member not in table:
                 r.notes.append(f'{cname}: new member {member} not in table')
+    # time bounds of a pattern: max_time is rejected exactly when it is below min_time (equal bounds are a valid window)
+    pc = ctx.model.cls('HplPattern', 'A6')
+    self_p = Sym('self', 'HplPattern')
+    seen_max = False
+    for v in pc.all_validators('max_time'):
+        ps = v.params()
+        val = Sym('value')
+        for o in ctx.ev.run(v, {ps[0]: self_p, ps[2]: val}):
+            if o.kind != 'raise':
+                continue
+            for t, pol in norm_guards(o.guards):
+                lt = isinstance(t, Op) and ((t.op == '<' and t.args == (val, Attr(self_p, 'min_time'))) or (t.op == '>' and t.args == (Attr(self_p, 'min_time'), val)))
+                ge_ = isinstance(t, Op) and ((t.op == '>=' and t.args == (val, Attr(self_p, 'min_time'))) or (t.op == '<=' and t.args == (Attr(self_p, 'min_time'), val)))
+                le = isinstance(t, Op) and ((t.op == '<=' and t.args == (val, Attr(self_p, 'min_time'))) or (t.op == '>=' and t.args == (Attr(self_p, 'min_time'), val)))
+                if (lt and pol) or (ge_ and not pol):
+                    seen_max = True
+                if le and pol:
+                    r.fail('HplPattern.max_time:validator', 'rejects max_time == min_time (e.g. `within 0 s` with the default minimum 0): a well-formed pattern is refused', v.where)
+                    seen_max = True
+    if not seen_max:
+        r.fail('HplPattern.max_time:validator', 'no validator rejects max_time < min_time', pc.where)
+    else:
+        r.ok('HplPattern: max_time rejected iff below min_time')
     return r
 
 
